@@ -27,6 +27,8 @@ type Sched struct {
 	Trace   []string // "actor@site" in release order: the interleaving
 	MaxPar  int      // maximum number of simultaneously parked actors seen
 	running int      // goroutines started via Go and not finished
+	// actorPanic: the first panic that ended an actor (reported by Run)
+	actorPanic string
 }
 
 type parkSlot struct {
@@ -59,7 +61,12 @@ func (s *Sched) Go(actor int, f func()) {
 		s.byGoid[goid()] = actor
 		s.mu.Unlock()
 		defer func() {
+			// a panic inside the code under test ends this actor, not the worker: Run reports it
+			r := recover()
 			s.mu.Lock()
+			if r != nil && s.actorPanic == "" {
+				s.actorPanic = fmt.Sprintf("panic in actor %d: %v", actor, r)
+			}
 			s.running--
 			s.mu.Unlock()
 		}()
@@ -102,6 +109,9 @@ func (s *Sched) Run(maxSteps int) error {
 		if len(s.parked) == 0 {
 			running := s.running
 			s.mu.Unlock()
+			if s.actorPanic != "" {
+				return fmt.Errorf("%s", s.actorPanic)
+			}
 			if running > 0 {
 				return fmt.Errorf("deadlock: %d actor(s) blocked inside the code under test, none parked at a seam", running)
 			}
